@@ -2,11 +2,11 @@ module verif/harness
 
 go 1.25.4
 
-require github.com/coregx/coregex v0.0.0
-
 require (
-	github.com/coregx/ahocorasick v0.3.0 // indirect
-	golang.org/x/sys v0.40.0 // indirect
+	github.com/coregx/ahocorasick v0.3.0
+	github.com/coregx/coregex v0.0.0
 )
+
+require golang.org/x/sys v0.40.0 // indirect
 
 replace github.com/coregx/coregex => /repo
